@@ -52,6 +52,9 @@ MODEL_DESC = {
         ('h', []),
         ('k', [('l', ('arr', ('leaf', 'text'))), ('e', ('enum',))]),
     ],
+    # bare methods: the in_message is the argument type itself
+    'bare': [('bi', ('leaf', 'int')), ('bd', ('leaf', 'datetime')), ('bt', ('leaf', 'text')), ('ba', ('arr', ('leaf', 'int'))),
+             ('bc', ('ref', 'Inner'))],
 }
 
 
@@ -78,6 +81,9 @@ RICH_DESC = {
         ('h', []),
         ('k', [('d', ('leaf', 'anydict')), ('x', ('leaf', 'anyxml')), ('l', ('arr', ('leaf', 'text')))]),
     ],
+    'bare': [('bi', ('leaf', 'int32')), ('bd', ('leaf', 'datetime')), ('bdu', ('leaf', 'duration')), ('bt', ('leaf', 'text10')),
+             ('bdec', ('leaf', 'decimal')), ('be', ('enum',)), ('ba', ('arr', ('leaf', 'int'))), ('bc', ('ref', 'Inner')),
+             ('bany', ('leaf', 'anydict'))],
 }
 
 
@@ -118,6 +124,11 @@ def build_service(desc, calls):
         exec(src, loc)
         fn = loc[mname]
         ns[mname] = rpc(*types, _returns=Unicode)(fn)
+    for mname, ty in desc.get('bare', []):
+        src = 'def %s(ctx, x):\n    calls.append(%r)\n    return "ok"\n' % (mname, mname)
+        loc = {'calls': calls}
+        exec(src, loc)
+        ns[mname] = rpc(mk(ty), _body_style='bare', _returns=Unicode)(loc[mname])
     return type('ModelService', (ServiceBase,), ns)
 
 
@@ -151,12 +162,24 @@ class AppTerm(object):
         for key, descs in iface.service_method_map.items():
             if len(descs) != 1:
                 raise Unmodelled('auxiliary methods on %s' % key)
-            c = descs[0].in_message
-            self.ty_of(c)
-            self.methods.append((key, self.ids[c]))
-            self.method_cls[descs[0].name] = self.ids[c]
-            if descs[0].in_header is not None:
+            from spyne import BODY_STYLE_BARE, BODY_STYLE_WRAPPED
+            d = descs[0]
+            c = d.in_message
+            if d.in_header is not None:
                 raise Unmodelled('in_header')
+            a = self.prot.get_cls_attrs(c)
+            mid = len(self.methods)
+            if d.body_style is BODY_STYLE_BARE:
+                sub = c.Attributes.sub_name
+                if not isinstance(sub, str):
+                    raise Unmodelled('bare method without a sub_name')
+                bare = '(Some %s)' % gtext(sub)
+            elif d.body_style is BODY_STYLE_WRAPPED and c.Attributes.sub_name is None:
+                bare = 'None'
+            else:
+                raise Unmodelled('body style of %s' % key)
+            self.methods.append((key, '(mkmsig %d%%nat %s %s %s)' % (mid, self.ty_of(c), gbool(a.nillable), bare)))
+            self.method_cls[d.name] = mid
 
     def leaf_kind(self, cls):
         from spyne.model.primitive import Integer, Unicode, Boolean, DateTime, Date, Time, Duration
@@ -268,7 +291,7 @@ class AppTerm(object):
             done.append('(mkcls %s %s %s)' % (gtext(cls.get_type_name()), gbool(a.nillable), glist(fs)))
             i += 1
         reg = ['(%s, %s)' % (gtext(k), t) for k, t in self.registry]
-        meth = ['(%s, %d%%nat)' % (gtext(k), c) for k, c in self.methods]
+        meth = ['(%s, %s)' % (gtext(k), c) for k, c in self.methods]
         return '(mkapp %s\n  %s\n  %s\n  %s)' % (gtext(self.app.interface.get_tns()), glist(['\n    ' + d for d in done]),
                                                 glist(reg), glist(meth))
 
